@@ -5,6 +5,7 @@ package props
 import (
 	"encoding/json"
 	"fmt"
+	"net/url"
 	"sort"
 	"strings"
 	"testing"
@@ -29,7 +30,13 @@ type c13Case struct {
 	MaxKeys int       `json:"maxKeys,omitempty"` // 0 = unpaginated
 	// explicit marker pair: index into the unpaginated listing (-1 = none)
 	MarkerIdx int `json:"markerIdx"`
+	// Enc: every listing request carries encoding-type=url (what boto3 sends); an answer that
+	// declares EncodingType=url is decoded the way a client does
+	Enc bool `json:"enc,omitempty"`
 }
+
+// c13EncodeURL is set for the duration of one c13Exec (the checks run one at a time).
+var c13EncodeURL bool
 
 type c13Entry struct {
 	Key, ID string
@@ -60,6 +67,9 @@ func c13List(st *backends.Stack, prefix, delim string, maxKeys int, keyMarker, v
 			q = append(q, "version-id-marker", verMarker)
 		}
 	}
+	if c13EncodeURL {
+		q = append(q, "encoding-type", "url")
+	}
 	r := s3x.Do(st.Handler, &s3x.Req{Method: "GET", Path: "/bk0", Query: s3x.Q(q...)})
 	if r.Status != 200 || r.Panic != "" {
 		return nil, r
@@ -67,6 +77,21 @@ func c13List(st *backends.Stack, prefix, delim string, maxKeys int, keyMarker, v
 	doc, err := s3x.ParseVersions(r.Body)
 	if err != nil {
 		return nil, r
+	}
+	if doc.EncodingType == "url" {
+		dec := func(s string) string {
+			if u, err := url.QueryUnescape(s); err == nil {
+				return u
+			}
+			return s
+		}
+		for i := range doc.Entries {
+			doc.Entries[i].Key = dec(doc.Entries[i].Key)
+		}
+		for i := range doc.CommonPrefixes {
+			doc.CommonPrefixes[i] = dec(doc.CommonPrefixes[i])
+		}
+		doc.NextKeyMarker, doc.KeyMarker = dec(doc.NextKeyMarker), dec(doc.KeyMarker)
 	}
 	return doc, r
 }
@@ -354,6 +379,8 @@ func c13CheckMarker(r *prog.Runner, prefix, delim string, full []c13Entry, idx i
 
 func c13Exec(cs c13Case) (ds []disc, info map[string]int) {
 	info = map[string]int{}
+	c13EncodeURL = cs.Enc
+	defer func() { c13EncodeURL = false }()
 	st := backends.Must(backends.Mem, backends.Options{})
 	defer st.Close()
 	r := prog.NewRunner(st)
@@ -430,9 +457,9 @@ func c13GenOp(rt *rapid.T) prog.Op {
 	remap := func(k string) string {
 		// a < b/x < b/y < c < d: the group rolled up under delimiter '/' has plain keys on both sides
 		if k == "k0" {
-			return rapid.SampledFrom([]string{"a", "b/x", "c"}).Draw(rt, "k0m")
+			return rapid.SampledFrom([]string{"a", "b/x", "c", "a+b"}).Draw(rt, "k0m")
 		}
-		return rapid.SampledFrom([]string{"b/y", "c", "d"}).Draw(rt, "k1m")
+		return rapid.SampledFrom([]string{"b/y", "c", "d", "b/50%2Doff"}).Draw(rt, "k1m")
 	}
 	if op.Key != "" {
 		op.Key = remap(op.Key)
@@ -512,7 +539,7 @@ func c13Run(t *testing.T, c *evid.Collector) {
 			ops = append(ops, c13GenOp(rt))
 		}
 		pd := rapid.SampledFrom([][2]string{{"", ""}, {"", ""}, {"", "/"}, {"", "/"}, {"b/", "/"}, {"b", ""}, {"a", ""}, {"b", "/"}, {"c", "/"}, {"b/x", ""}}).Draw(rt, "pd")
-		base := c13Case{Ops: ops, Prefix: pd[0], Delim: pd[1], MarkerIdx: -1}
+		base := c13Case{Ops: ops, Prefix: pd[0], Delim: pd[1], MarkerIdx: -1, Enc: rapid.IntRange(0, 2).Draw(rt, "enc") == 0}
 		ds, info := c13Exec(base)
 		if record(base, ds, info, "random") {
 			rt.Fatalf("C13 violated: %v", ds)
